@@ -22,8 +22,8 @@ type FuncResult struct {
 }
 
 // verifyFunction generates all obligations of one function under its contract.
-func (p *Program) verifyFunction(fn *ssa.Function, fc *FuncContract) (res *FuncResult) {
-	x := &Exec{prog: p, fn: fn, contract: fc, maxPaths: 4000, ordinals: map[string]int{}}
+func (p *Program) verifyFunction(fn *ssa.Function, fc *FuncContract, noAssume map[string]bool) (res *FuncResult) {
+	x := &Exec{prog: p, fn: fn, contract: fc, maxPaths: 4000, ordinals: map[string]int{}, noAssume: noAssume}
 	res = &FuncResult{Name: p.shortName(fn), Pos: p.fset.Position(fn.Pos()).String(), Contract: fc}
 	defer func() {
 		if r := recover(); r != nil {
